@@ -133,7 +133,8 @@ def tlwe_groups(tag, tier):
             gs.append(Group('%s.%s.k=%d' % (tag, fn, K), 'c14_tlwe.c', 'h_' + fn, extract=[(LW, fn)], enforce=fn, loops=True, timeout=1200,
                             defines={'VERIF_K': K}, instance={'k': K}, replay=('extract', fn)))
             if fn == 'tLweExtractLweSampleIndex':
-                gs[-1].arb_bound = 3       # bounded arbiter: N <= 3 (N <= 4 exhausts 8 GB in the SAT back end; 3 still has a non power of two)
+                gs[-1].arb_bound = 3       # bounded arbiter: N = 3 exactly (a symbolic degree exhausts 8 GB in the SAT back end; 3 is not a power of two)
+                gs[-1].arb_defines = {'VERIF_ARB_FIXED_N': None}
         gs.append(Group('%s.tLweExtractLweSample.k=%d' % (tag, K), 'c14_tlwe.c', 'h_tLweExtractLweSample', extract=[(LW, 'tLweExtractLweSample')],
                         enforce='tLweExtractLweSample', replace=['tLweExtractLweSampleIndex'],
                         defines={'VERIF_K': K, 'EXTRACT_CALLEE_CONTRACT': None}, instance={'k': K}, replay=('extract', 'tLweExtractLweSample')))
@@ -300,6 +301,7 @@ def c04_groups(tier, tag='C04'):
         gs.append(Group('%s.dep.tLweExtractLweSampleIndex.k=%d' % (tag, K), 'c14_tlwe.c', 'h_tLweExtractLweSampleIndex', extract=[(LW, 'tLweExtractLweSampleIndex')],
                         enforce='tLweExtractLweSampleIndex', loops=True, timeout=1200, defines={'VERIF_K': K}, replay=('extract', 'tLweExtractLweSampleIndex')))
         gs[-1].arb_bound = 3
+        gs[-1].arb_defines = {'VERIF_ARB_FIXED_N': None}
         gs.append(Group('%s.dep.tLweExtractLweSample.k=%d' % (tag, K), 'c14_tlwe.c', 'h_tLweExtractLweSample', extract=[(LW, 'tLweExtractLweSample')],
                         enforce='tLweExtractLweSample', replace=['tLweExtractLweSampleIndex'], defines={'VERIF_K': K, 'EXTRACT_CALLEE_CONTRACT': None}))
         gs.append(Group('%s.dep.tLweNoiselessTrivial.k=%d' % (tag, K), 'c14_tlwe.c', 'h_tLweNoiselessTrivial', extract=[(TL, 'tLweNoiselessTrivial')],
